@@ -314,7 +314,7 @@ floating_point_number = (
 # Basic arithmetic operations
 plus, minus, mult, div = map(pp.Literal, "+-*/")
 
-def _fold_arithmetic(tokens: pp.ParseResults) -> float:
+def _fold_arithmetic(text: str, loc: int, tokens: pp.ParseResults) -> float:
     # a left-associative chain arrives as [operand, operator, operand, operator, operand, ...]
     chain = tokens[0]
     result = chain[0]
@@ -322,6 +322,9 @@ def _fold_arithmetic(tokens: pp.ParseResults) -> float:
         if operator == "*":
             result = result * operand
         elif operator == "/":
+            if operand == 0:
+                # reported like any other syntax error instead of escaping as ZeroDivisionError
+                raise pp.ParseFatalException(text, loc, "division by zero in a constant")
             result = result / operand
         elif operator == "+":
             result = result + operand
